@@ -16,7 +16,7 @@ CMAX = 40          # leaf tables cover widths 0..CMAX
 ENCODINGS = ["utf-8", "ascii", "euc-jp"]
 
 ERRCODE = {"IndexError": 1, "ValueError": 2, "TypeError": 3, "WidgetError": 4, "CanvasError": 5, "OtherError": 10,
-           "ZeroDivisionError": 11, "NoData": 12}
+           "ZeroDivisionError": 11, "NoData": 12, "Starved": 13, "CursorCut": 14}
 ERRNAME = {v: k for k, v in ERRCODE.items()}
 
 TEXTS = ["a", "hello world", "x\ny", "世界 ok", "á́b", "", "──┐", "longwordwithoutspaces ok",
@@ -224,7 +224,10 @@ def probe(w, size, focus, track=None):
         raw[key] = {"value": v, "starved": starved[:3], "detail": detail}
         # the rect flag (4th element of a render observation) is judged by the oracle only: the model's flag is
         # conservative when a ragged part is later covered or trimmed away
-        canon[key] = "Starved" if starved else (v[:3] if key == "render" and not isinstance(v, str) else v)
+        if starved:
+            canon[key] = "CursorCut" if starved[0][1] == "cursor-cut" else "Starved"     # the first event decides
+        else:
+            canon[key] = v[:3] if key == "render" and not isinstance(v, str) else v
 
     if len(size) == 1:
         do("rows", lambda: int(w.rows(size, focus)))
@@ -284,7 +287,7 @@ class Gen:
             lambda: ["text", self.text(), r.choice(ALIGNS), r.choice(WRAPS)],
         ]
         if self.enc == "utf-8":
-            fixed.insert(0, lambda: ["bigtext", r.choice(["1", "ab", "0,1"]), r.choice(["3x3", "4x3", "half"])])
+            fixed.insert(0, lambda: ["bigtext", r.choice(["1", "12", "0,1"]), r.choice(["3x3", "4x3", "half"])])   # glyphs every bundled font has
         box = [
             lambda: ["solid", r.choice(["#", ".", " ", "x"])],
             lambda: ["solid", r.choice(["#", ".", " ", "x"])],
@@ -392,7 +395,7 @@ class Gen:
                 elif want == "flow":
                     m = "box" if (o and o[0] == "g") else "flow"
                 elif want == "fixed":
-                    m = "box" if (o and o[0] == "g") else r.choice(["fixed", "flow"])
+                    m = "box" if (o and o[0] == "g") else r.choice(["flow", "flow", "flow", "fixed"])
                     if o is None or o[0] == "w":
                         o = ["p"] if r.random() < 0.7 else o
                 else:
@@ -466,7 +469,15 @@ def _install_spy():
                         rec.boxcalls.add((id(self), tsize[0], tsize[1], foc))
                 except TypeError:
                     pass
-            return fn(self, size, *a, **kw)
+            out = fn(self, size, *a, **kw)
+            if rec is not None and name == "render":
+                try:
+                    cur = out.cursor
+                    if cur is not None and not (0 <= cur[0] < out.cols() and 0 <= cur[1] < out.rows()):
+                        rec.starved.append((type(self).__name__, "cursor-cut", (tuple(cur), (out.cols(), out.rows()))))
+                except Exception:      # noqa: BLE001
+                    pass
+            return out
         spied._c01_spy = True
         setattr(cls, name, spied)
 
@@ -603,7 +614,7 @@ def wf_node(w):
             if kc == 0 and not (amount >= 1 and cs["box"]):
                 return "given-height Pile child is not a box widget"
             if kc == 1 and not cs["flow"]:
-                return "pack Pile child is not a flow widget"
+                return LENIENT if cs["fixed"] else "pack Pile child is neither flow nor fixed"
             if kc == 2:
                 if not (isinstance(amount, int) and amount >= 1):
                     return "Pile weight is not a positive integer"
@@ -647,6 +658,8 @@ def wf_node(w):
                 return "Columns claims flow sizing but a child cannot be rendered in a flow Columns"
             if not imp(ps["fixed"], fixed_ok):
                 return "Columns claims fixed sizing but a child cannot be rendered in a fixed Columns"
+        if ps["fixed"] and w.contents and all(o[2] for _c, o in w.contents):
+            return "every column is a box column: a fixed Columns has no height information"
         return None
     return None
 
@@ -681,7 +694,7 @@ def wf_tree(w):
 def e_res(v, kind):
     """kind: 'z' | 'pair' | 'canv'"""
     if isinstance(v, str):
-        return [1, 13 if v == "Starved" else ERRCODE.get(v, 10)]
+        return [1, ERRCODE.get(v, 10)]
     if kind == "z":
         return [0, v]
     if kind == "pair":
@@ -714,7 +727,7 @@ class Encoder:
     def res(self, raw, kind):
         v = raw["render"]["value"]
         if raw["render"]["starved"]:
-            v = "Starved"
+            v = "CursorCut" if raw["render"]["starved"][0][1] == "cursor-cut" else "Starved"
         if kind == "canv" and not isinstance(v, str) and not v[3]:
             self.ok = False
         return e_res(v, kind)
@@ -794,6 +807,11 @@ def probe_sizes(case):
     return [([(), (c,), (c, r)][m], bool(f)) for m, c, r, f in case["probes"]]
 
 
+# the one WellFormed rule that excludes a genuine defect rather than misuse: such trees are still generated
+# (flagged "lenient", judged by the oracle only, expected to hit the known finding)
+LENIENT = "pack Pile child supports only fixed sizing"
+
+
 # ------------------------------------------------------------------ the check
 class C01(core.Check):
     pid = "C01"
@@ -804,11 +822,58 @@ class C01(core.Check):
     allowed_axioms = set()
     design_ref = "DESIGN.md section 5, C01"
     search_budget = {"quick": 45, "thorough": 300}
+    technique = ("Coq: structural induction over widget trees on an executable dimension model (sizing/rows/pack/render -> "
+                 "cols, rows, cursor) of the container widgets, one contract lemma per constructor; extracted-model "
+                 "correspondence on random well-formed trees of real widgets (leaves enter the model as measured tables); "
+                 "oracle = a complete validate_size on the real canvas")
+    level_text = ("Proved in Coq (render_contract_partial, by structural induction, arbitrary depth, every size >= 1, both focus "
+                  "values): for trees built from leaves that satisfy the contract themselves, AttrMap / LineBox delegation, "
+                  "BoxAdapter, Padding (given / pack / relative width), Filler (pack / given / relative height) and Pile (given / "
+                  "pack / weight items), BOX sizing yields exactly the requested columns and rows and FLOW sizing the requested "
+                  "columns and exactly rows() rows, all content rows have the canvas width, the cursor is inside, rows() >= 1 and "
+                  "pack((c,)) agrees with rows() - unless the model reports one of two explicit markers: a widget was handed a "
+                  "size with a component <= 0 (no room; such probes are not judged) or a widget returned a canvas whose cursor "
+                  "was trimmed away (a known finding).  PARTIAL: Columns, Frame, Overlay, clip Padding and all FIXED sizing are "
+                  "modelled, extracted and compared but NOT proved; the full statement (render_contract_full) is refuted in Coq by "
+                  "two witnesses that replay on the implementation (fixed Padding: pack(()) != render(()); Overlay with packed "
+                  "height asks rows() at the wrong width).  The leaf contract is a hypothesis (leaves_ok), discharged only by the "
+                  "oracle on the real leaves (Text, Edit, Divider, SolidFill, Button, CheckBox, RadioButton, ProgressBar, BigText, "
+                  "BarGraph, SelectableIcon, ListBox, GridFlow, Scrollable/ScrollBar).  Everything else - all nine constructors, the "
+                  "three sizing modes, sizing() flags, rows(), pack(), render() sizes and cursors, which error is raised - is tied "
+                  "to the code by an exact extracted-model correspondence on ~1.2k random well-formed trees x ~8 probes per quick "
+                  "run, and the property itself is judged on the real canvases (cols/rows vs request/rows()/pack(), calc_width of "
+                  "every content row, row count, cursor) including the leaves the model only assumes.")
+    level_note = ("Trusted: Coq kernel; ExtrOcamlBasic extraction + OCaml driver; the hand-written model Model/WidgetDims.v (validated "
+                  "by the correspondence, not proved against Python); the Python oracle and the spy that flags degenerate sizes "
+                  "and trimmed-away cursors.  Hypotheses: WellFormed (wf_b: every child supports the sizing mode its container "
+                  "will ask of it - misuse is neither generated nor judged); leaves_ok; integer weights.  Probes in which any "
+                  "widget is handed a size with a component <= 0 are compared with the model (which predicts them) but not judged "
+                  "by the oracle.  GridFlow is history-dependent (known finding), trees containing it are judged but not compared.")
+    rule = ("one case = one random WellFormed widget tree (depth <= 5; Pile/Columns items given/pack/weight, box_columns, "
+            "dividechars, min_width, focus positions; Padding/Filler/Overlay align, valign, given/pack/relative/clip sizes, min "
+            "sizes, margins; Frame parts and focus part; LineBox titles; 17 leaf kinds) x one of utf-8/ascii/euc-jp x 1-3 random "
+            "sizes in 1..12 for every sizing mode the tree reports x both focus values; non-trivial = more than one widget or at "
+            "least one successful render; distinct by hash of (case, outcome)")
+    trusted_base = [
+        "Coq 8.16.1 kernel (vm_compute only in closed examples and refutation witnesses)",
+        "extraction: ExtrOcamlBasic; OCaml 4.13.1; tools/driver/driver.ml",
+        "Model/WidgetDims.v: hand-written model of Pile/Columns/Padding/Filler/Overlay/Frame/BoxAdapter/AttrMap and the canvas size laws (validated by the correspondence)",
+        "harness/props/c01.py: tree builder, leaf measurement, spy for degenerate sizes / trimmed cursors, oracle",
+    ]
+    assumptions = [
+        "WellFormed trees only (wf_b, mirrored by wf_node): e.g. ListBox items and Frame header/footer are flow widgets, Frame body / BoxAdapter child / given-or-relative Filler child are box widgets, weighted Pile children support every mode the Pile itself reports",
+        "every leaf satisfies the contract itself (leaves_ok) - tested by the oracle, not proved",
+        "probes in which a widget receives a size with a component <= 0 are not judged (the model marks them EStarved)",
+        "integer weights; GridFlow-containing trees are not compared with the model (history-dependent pack())",
+    ]
 
     def __init__(self):
         super().__init__()
         self._raw = {}
         self._track = {}
+        self._why = {}
+        self._sigcount = {}
+        self._in_shrink = False
 
     # ---------- implementation ----------
     def run_impl(self, case):
@@ -817,7 +882,8 @@ class C01(core.Check):
         try:
             w = build(case["tree"])
             track = {"maxw": 0, "boxcalls": set()}
-            res = {"sizing": sizing_bits(w), "wf": int(wf_tree(w) is None), "probes": []}
+            why = wf_tree(w)
+            res = {"sizing": sizing_bits(w), "wf": int(why is None), "probes": []}
             raws = []
             for size, focus in probe_sizes(case):
                 canon, raw = probe(w, size, focus, track)
@@ -825,6 +891,7 @@ class C01(core.Check):
                 raws.append(raw)
             key = core.h(case)
             self._raw = {key: raws}
+            self._why = {key: why}
             self._track = {key: (w, track)}
             return res
         finally:
@@ -856,7 +923,7 @@ class C01(core.Check):
         it = iter(ints)
 
         def name(code):
-            return "Starved" if code == 13 else ERRNAME.get(code, "OtherError")
+            return ERRNAME.get(code, "OtherError")
 
         def rz():
             t, v = next(it), next(it)
@@ -893,12 +960,40 @@ class C01(core.Check):
 
     # ---------- oracle: the property text, judged on the real canvas ----------
     def oracle(self, case, res):
+        """At most SIGCAP messages per failure class reach the pipeline (it keeps one per class anyway and
+        stops collecting at 200): a frequent known class must not crowd out a rare new one."""
+        out = []
+        for msg in self.judge(case, res):
+            sig = self.signature(case, msg)
+            n = self._sigcount.get(sig, 0)
+            if n < self.SIGCAP or self._in_shrink:
+                out.append(msg)
+            if not self._in_shrink:
+                self._sigcount[sig] = n + 1
+        return out
+
+    SIGCAP = 6
+
+    def shrink(self, case, msg):
+        self._in_shrink = True
+        try:
+            return super().shrink(case, msg)
+        finally:
+            self._in_shrink = False
+
+    def replay(self, path):
+        self._in_shrink = True
+        return super().replay(path)
+
+    def judge(self, case, res):
         key = core.h(case)
         if key not in self._raw:
             self.run_impl(case)
         raws = self._raw[key]
         sizing = res["sizing"]
         msgs = []
+        if not res["wf"] and not (case.get("lenient") and self._why.get(key) == LENIENT):
+            return msgs                       # outside WellFormed (misuse): not judged; also keeps the shrinker inside
         for (m, c, r, f), raw in zip(case["probes"], raws):
             if not sizing[[2, 1, 0][m]]:
                 continue                      # the widget does not claim this sizing mode
@@ -907,8 +1002,12 @@ class C01(core.Check):
             size = [(), (c,), (c, r)][m]
             tag = f"render({size}, focus={bool(f)})"
             rd = raw["render"]
-            if rd["starved"] or (m == 1 and raw["rows"]["starved"]) or (m == 0 and raw["pack"]["starved"]):
+            ev = (rd["starved"] or (m == 1 and raw["rows"]["starved"]) or (m == 0 and raw["pack"]["starved"]) or [None])[0]
+            if ev is not None and ev[1] != "cursor-cut":
                 # some widget was handed a size with a component <= 0 (no room): not judged, see level_note
+                continue
+            if ev is not None:
+                msgs.append(f"{tag}: cursor {ev[2][0]} outside the {ev[2][1][0]}x{ev[2][1][1]} canvas returned by {ev[0]}")
                 continue
             note = ""
             v = rd["value"]
@@ -990,6 +1089,8 @@ class C01(core.Check):
         bump("enc:" + case.get("enc", "utf-8"))
         bump("depth:%d" % min(spec_depth(case["tree"]), 7))
         bump("wf:%d" % res["wf"])
+        if case.get("lenient"):
+            bump("lenient-stream")
         for (m, _c, _r, _f), p in zip(case["probes"], res["probes"]):
             bump("probe:" + ["fixed", "flow", "box"][m])
             rd = p["render"]
@@ -1024,8 +1125,12 @@ class C01(core.Check):
         if bits[2]:
             probes += [[0, 0, 0, 0], [0, 0, 0, 1]]
         stateful = any(t[0] == "gridflow" for t in subtrees(spec))     # GridFlow answers depend on the previous call
-        return {"tree": spec, "enc": enc, "probes": probes,
+        case = {"tree": spec, "enc": enc, "probes": probes,
                 "mode": "corr" if (why is None and not stateful) else "oracle", "why": why}
+        if why == LENIENT:
+            case["lenient"] = 1
+            case["why"] = None
+        return case
 
     def cases(self, rng, tier):
         n = 1500 if tier == "quick" else 15000
